@@ -212,7 +212,14 @@ def space_free_bytes(w, name):
 def dispatcher(I, w, prefix, strict, scheduled, outcomes):
     """RemoteDispatcher pre-state; outcomes[k] says whether the payload of the k-th frame deserializes (True / symbolic bool; frames
     beyond the list do).  A failing call raises an arbitrary Exception (DESER_RAISES)."""
-    loop = Opaque("loop", {"methods": {"call_soon": lambda I_, o, a, k: scheduled.append(tuple(a))}})
+    # deliveries (observed at the subscribed callbacks' entry, Dispatcher.process): through loop.call_soon (FIFO: they run in the order
+    # recorded) or by a direct call; a mixture of the two routes would not keep the order and is rejected by `iterations`
+    routes = w.ghost.setdefault("$routes", [])
+
+    def call_soon(I_, o, a, k):
+        scheduled.append(tuple(a))
+        routes.append("soon")
+    loop = Opaque("loop", {"methods": {"call_soon": call_soon}})
     received = w.ghost.setdefault("$frames received", [0])
 
     def deser(I_, a, k):
@@ -223,7 +230,10 @@ def dispatcher(I, w, prefix, strict, scheduled, outcomes):
         return ("deserialized", a[0])
     d = bare(I, f"{MZ}:RemoteDispatcher", _prefix=prefix, _strict=strict, loop=loop, _deserializer=native(deser),
              _socket=Opaque("socket", {"methods": {"recv": lambda I_, o, a, k: Opaque("recv()", {"awaitable": True})}}))
-    process = native(lambda I_, a, k: None)
+    def direct(I_, a, k):
+        scheduled.append((process,) + tuple(a))
+        routes.append("direct")
+    process = native(direct)
     d.attrs["process"] = process
     return d, process
 
@@ -237,14 +247,20 @@ def iterations(I, d, messages):
         n[0] += 1
         if n[0] <= len(messages):
             return ("send", messages[n[0] - 1])
-        raise PathEnd("all frames consumed")
+        raise _Consumed("all frames consumed")
     try:
         run_coro(I, coro, on_await)
         return ("returned", None, n[0])
     except PyRaise as pr:
         return ("raise", pr.exc, n[0])
-    except PathEnd:
+    except _Consumed:
+        if len(set(I.w.ghost.get("$routes", []))) > 1:
+            return ("mixed delivery routes", None, n[0])
         return ("next", None, n[0])
+
+
+class _Consumed(PathEnd):
+    pass
 
 
 def publisher(I, w, prefix, sent, docs):
@@ -317,26 +333,23 @@ def roundtrip(I):
     w.check(NM_RT, out[0] == "next" and len(scheduled) == 1 and delivered_is(scheduled[0], process, names[name], payload), rp)
 
 
-TWIN_RT = "twin:C33.a dispatcher delivers the frames of a publisher whose prefix extends its own"
+TWIN_RT = "twin:C33.the delivered document is the deserialization of some other payload"
 
 
 @task("roundtrip_twin", PROP, functions=[f"{MZ}:Publisher.__call__", f"{MZ}:RemoteDispatcher._poll"], twin=TWIN_RT)
 def roundtrip_twin(I):
-    """must fail: prefix matching is equality, not 'begins with'"""
+    """must fail (whatever the code does): the round-trip clause with another payload in the place of the published one"""
     w = I.w
     scheduled, sent = [], []
-    install(I, [])
-    dprefix = space_free_bytes(w, "disp_prefix")
-    w.add(ops.not_(ops.eq(dprefix, b"")))
-    tail = space_free_bytes(w, "tail")
-    w.add(ops.not_(ops.eq(tail, b"")))
+    names = install(I, [])
+    prefix = space_free_bytes(w, "pub_prefix")
     doc = Opaque("doc", {"token": "doc"})
-    pub = publisher(I, w, B(z3.Concat(dprefix.t, tail.t)), sent, [(doc, B(w.str("payload").t))])
+    pub = publisher(I, w, prefix, sent, [(doc, B(w.str("payload").t))])
     w.add(ops.mk(DECODABLE(z3.StringVal("start"))))
     I.call_value(pub, "start", doc)
-    d, process = dispatcher(I, w, dprefix, False, scheduled, [])
-    iterations(I, d, sent)
-    w.check(TWIN_RT, len(scheduled) == 1)
+    d, process = dispatcher(I, w, prefix, False, scheduled, [])
+    out = iterations(I, d, sent)
+    w.check(TWIN_RT, out[0] == "next" and len(scheduled) == 1 and delivered_is(scheduled[0], process, names["start"], B(w.str("other_payload").t)))
 
 
 @task("history", PROP, functions=[f"{MZ}:Publisher.__call__", f"{MZ}:RemoteDispatcher._poll"], expect=[NM_HIST],
